@@ -266,8 +266,8 @@ pub fn worker(ctx: &WorkerCtx) -> Report {
     }
     // the repository's own programs
     let mut files: Vec<std::path::PathBuf> = Vec::new();
-    for base in ["/repo/examples", "/repo/testsuite", "/repo/benchmarks"] {
-        collect_sc(std::path::Path::new(base), &mut files);
+    for base in [format!("{}/examples", repo_dir()), format!("{}/testsuite", repo_dir()), format!("{}/benchmarks", repo_dir())] {
+        collect_sc(std::path::Path::new(&base), &mut files);
     }
     files.sort();
     for p in files {
@@ -300,7 +300,7 @@ fn collect_sc(dir: &std::path::Path, out: &mut Vec<std::path::PathBuf>) {
 }
 
 fn scc_binary() -> Option<std::path::PathBuf> {
-    let p = std::path::PathBuf::from("/verif/engine/target/scc/release/scc");
+    let p = scc_path();
     if p.exists() { Some(p) } else { None }
 }
 
